@@ -59,6 +59,17 @@ pub struct EncodedLzma2 {
 /// Serialise a chunk sequence. Returns Err(text) when a chunk violates a
 /// format limit (generator bug, not a property violation).
 pub fn write_lzma2(chunks: &[Chunk], want_tables: bool) -> Result<EncodedLzma2, String> {
+    write_lzma2_tweaked(chunks, want_tables, None)
+}
+
+/// Like `write_lzma2`; `marker_chunk = Some((i, k))` appends an LZMA end marker
+/// to compressed chunk i's payload and declares k more uncompressed bytes than
+/// the chunk produces (a malformed stream: the chunk yields fewer bytes than declared).
+pub fn write_lzma2_tweaked(
+    chunks: &[Chunk],
+    want_tables: bool,
+    marker_chunk: Option<(usize, u32)>,
+) -> Result<EncodedLzma2, String> {
     let mut enc = SymEncoder::new(Props::new(0, 0, 0));
     let mut bytes = Vec::new();
     let mut layout = Vec::new();
@@ -129,8 +140,16 @@ pub fn write_lzma2(chunks: &[Chunk], want_tables: bool) -> Result<EncodedLzma2, 
                         });
                     }
                 }
+                let mut extra_unpacked = 0usize;
+                if let Some((mi, k)) = marker_chunk {
+                    if mi == ci {
+                        let mut probe = enc.clone();
+                        probe.encode_marker(&mut rc, 2);
+                        extra_unpacked = k as usize;
+                    }
+                }
                 let payload = rc.finish();
-                let unpacked = enc.hist.len() - before;
+                let unpacked = enc.hist.len() - before + extra_unpacked;
                 if unpacked == 0 || unpacked > MAX_UNPACKED {
                     return Err(format!("chunk {}: unpacked {}", ci, unpacked));
                 }
